@@ -44,8 +44,18 @@ Measure(a, dt, m) ==
 ScanStep(i) ==
   LET ang == ScanAngle(R.off, R.points, i - 1)
       okAng == Len(R.angles) = R.points /\ Len(R.vals) = R.points /\ Close(R.angles[i], ang, FStr("1e-9"))
-      ref == Measure(Combine(R.ns, R.we, R.angles[i]), R.dt, R.measure)
-      okVal == okAng /\ CloseRel(R.vals[i], ref, FStr("1e-10"), FAbs(ref), FStr("1e-300"))
+      comb == Combine(R.ns, R.we, R.angles[i])
+      ref == Measure(comb, R.dt, R.measure)
+      \* size of the measure for this pair of components: the measure of |ns| + |we| (the combination's coefficients
+      \* are bounded by 1).  Tolerances are relative to it, not to the value itself, which may cancel to (nearly) nothing:
+      \* a zero component at 90 degrees gives cos(pi/2) * ns = 6e-17 * ns with a rounded pi/2 and exactly 0 without.
+      size == Measure([j \in 1..Len(R.ns) |-> FAdd(FAbs(R.ns[j]), FAbs(R.we[j]))], R.dt, R.measure)
+      \* an array-valued named parameter ("velocity"): the scan returns the whole series of that combination
+      vref == FCumTrap(comb, R.dt)
+      vtol == FMul(FStr("1e-10"), FAdd(TrapRun([j \in 1..Len(R.ns) |-> FAdd(FAbs(R.ns[j]), FAbs(R.we[j]))], R.dt).pv, FStr("1e-300")))
+      okVal == okAng /\ (IF R.measure = "velocity"
+                          THEN Len(R.vals[i]) = Len(R.ns) /\ \A j \in 1..Len(R.ns) : Close(R.vals[i][j], vref[j], vtol)
+                          ELSE CloseRel(R.vals[i], ref, FStr("1e-10"), FAbs(size), FStr("1e-300")))
   IN Fails(okAng, "ScanAngles") \cup (IF okAng THEN Fails(okVal, "ScanValues") ELSE {})
 
 \* --- cluster ----------------------------------------------------------------------
